@@ -1310,3 +1310,77 @@ func (b *Body) viaMemberHelper(fn *ssa.Function, member string) (hc *ssa.Call, o
 	})
 	return
 }
+
+// decoderEntryOnFreshNodes (R-STALERAW): (*lazyNode).UnmarshalJSON installs a text and marks the
+// node undecoded without clearing what an earlier decode left in doc/ary: it is the codec's
+// entry point for nodes it has just made. Library code that calls it directly does so on a
+// node created in the same function — loading a new text into a node of the document that
+// has been decoded before makes the next decode merge the new members into the old ones.
+func (b *Body) decoderEntryOnFreshNodes(l *Ledger, a *nilAn) {
+	um := b.method(b.Lib, "lazyNode", "UnmarshalJSON")
+	if um == nil {
+		return
+	}
+	n := 0
+	for _, fn := range b.srcFuncs(b.Lib) {
+		for _, cs := range callsTo(fn, func(cc *ssa.CallCommon) bool { return cc.StaticCallee() == um }) {
+			n++
+			key := fmt.Sprintf("%s: direct call #%d of (*lazyNode).UnmarshalJSON is on a node made in this function", fname(fn), n)
+			recv := cs.Common().Args[0]
+			if a.freshValue(recv) {
+				l.add("R-STALERAW", b.Name, key, b.posOf(cs), Discharged, "receiver is "+roleOf(recv), true)
+			} else {
+				l.add("R-STALERAW", b.Name, key, b.posOf(cs), Violated, "a new text is loaded into "+roleOf(recv)+", which may have been decoded already: its old members stay behind the new text and come back with the next decode", true)
+			}
+		}
+	}
+	if n == 0 {
+		l.add("R-STALERAW", b.Name, "no direct call of (*lazyNode).UnmarshalJSON in the library (the codec calls it on nodes it makes)", "", Discharged, "call census", false)
+	}
+}
+
+// oneOperationPerStep (R-DISPATCH): the apply loop takes the operations one at a time. Inside
+// the dispatch loop the patch is read only at the loop's own index: no look-ahead at the next
+// operation, no second index. Fusing `remove X; add X` into a replace, or skipping an
+// operation the previous one "already covered", needs exactly such a read — and changes what
+// the sequence does (a member re-created by add keeps the old position).
+func (b *Body) oneOperationPerStep(l *Ledger, ai *applyInfo) {
+	fn := ai.loopFn
+	key := "apply: one operation per iteration, read at the loop's own index (no look-ahead)"
+	ds := ai.dispatchSite()
+	if ds == nil {
+		return
+	}
+	h := innermostLoopHeader(ds.Block())
+	if h == nil {
+		return
+	}
+	bad := ""
+	n := 0
+	allInstrs(fn, func(i ssa.Instruction) {
+		var x, idx ssa.Value
+		switch e := i.(type) {
+		case *ssa.IndexAddr:
+			x, idx = e.X, e.Index
+		case *ssa.Index:
+			x, idx = e.X, e.Index
+		default:
+			return
+		}
+		if !isNamed(unwrapConv(x).Type(), "Patch") {
+			return
+		}
+		if hh := innermostLoopHeader(i.Block()); hh == nil || !(hh == h || h.Dominates(hh)) || !naturalLoop(h)[i.Block()] {
+			return // outside the dispatch loop (a count, a validation pass: judged elsewhere)
+		}
+		n++
+		if !isRangeIndex(h, idx, x) {
+			bad = "the patch is read at " + b.posOf(i) + " with an index that is not the dispatch loop's own: an operation other than the current one is looked at (or skipped)"
+		}
+	})
+	if bad != "" {
+		l.add("R-DISPATCH", b.Name, key, b.rel(fn.Pos()), Violated, bad, true)
+	} else {
+		l.add("R-DISPATCH", b.Name, key, b.rel(fn.Pos()), Discharged, fmt.Sprintf("%d read(s) of the patch inside the dispatch loop, each at the loop index", n), true)
+	}
+}
